@@ -85,4 +85,20 @@ CLAIMS = {
         note='Decides these clauses for all paths of all API-reachable functions; exits with an error status (allocation failure) are '
              'exempt (not protocol-conforming); leaks that need ESI arithmetic to see (the repaired D6) are a declared miss. ' + BASE,
         technique='ownership/effect analysis: owned-vs-released field sets, loop-range rules for sweeps, typestate dataflow for locals'),
+    'C17': dict(
+        text='Structural invariants the set semantics of the sparse matrix rests on: complete row+column linking of every fresh entry '
+             'before it is returned, symmetric unlink and recycling in delete, free list never outliving its blocks, strict index guards '
+             'against the allocated extents, complete release in the destructor, no use after free in the unit.',
+        design_ref='DESIGN.md section 6 C17; rules R-DLINK, R-FREELIST, R-IDX-GUARD, R-OWN-FIELD, R-UAF',
+        note='Does NOT decide set semantics under arbitrary operation sequences (ordered traversal, idempotent insert): that is a '
+             'model-level property. ' + BASE,
+        technique='link-pairing rule over stores, free-list rule, guard-vs-extent registry built from allocation sites'),
+    'C18': dict(
+        text='Bit addressing geometry of get/set/flip and the allocator is consistent with the word type; the byte popcount table is '
+             'exact (exhaustive); the bit-serial popcount visits every bit; guarded indices are compared strictly with the dimension the '
+             'indexed array was allocated with; destructor releases both allocations; the solver swaps right-hand sides with rows.',
+        design_ref='DESIGN.md section 6 C18; rules R-WORDGEOM, R-HW8, R-BITLOOP, R-IDX-GUARD, R-OWN-FIELD, R-PAIRSWAP',
+        note='Does NOT decide equality with the bit-matrix model for all dimensions, the SWAR popcount formulas, nor that the solver '
+             'returns the unique solution iff full column rank. ' + BASE,
+        technique='constant-geometry consistency, constant-data comparison, loop trip count, guard-vs-extent registry'),
 }
